@@ -18,3 +18,4 @@ CFG = dict(
      timeout_quick=300, timeout_thorough=2400)
 CFG["rule"] += ' Added after independently written breaking changes: Runners are registered through the constructor, through Add before Run, or both.'
 CFG["rule"] += ' Grace periods: none, generous, short, zero and negative (a given, non-positive grace period is over when the closers start). TestRunVersusRun: 2-8 goroutines call Run of one fresh manager behind a gate, thousands of managers; every runner started exactly once, exactly one call ran them, the others got ErrManagerAlreadyStarted.'
+CFG["rule"] += " TestCtorSliceStaysCallers: two managers constructed from overlapping parts of one slice, then Add and Run on the first: the second starts every runner it was given. Runner results also include the runner's own deadline errors (bare, wrapped)."
